@@ -73,6 +73,19 @@ func main() {
 		os.Exit(runCheck(args[0], &opt))
 	case "list":
 		os.Exit(runList(&opt))
+	case "asm":
+		u, err := loadAll(&opt)
+		if err != nil {
+			fmt.Fprintln(os.Stderr, err)
+			os.Exit(2)
+		}
+		for fn, src := range u.AsmModels {
+			fmt.Printf("// ---- %s\n%s\n", fn, src)
+		}
+		for _, n := range u.Notes {
+			fmt.Println("// note:", n)
+		}
+		os.Exit(0)
 	case "replay":
 		if len(args) < 2 {
 			fmt.Fprintln(os.Stderr, "govc replay <property> <file>")
@@ -93,7 +106,7 @@ func loadAll(opt *Options) (*Universe, error) {
 	if err := u.loadDeps(filepath.Join(opt.Verif, "contracts", "deps")); err != nil {
 		return nil, err
 	}
-	u.Notes = u.resolveSameAs()
+	u.Notes = append(u.Notes, u.resolveSameAs()...)
 	return u, nil
 }
 
@@ -315,6 +328,9 @@ func buildEvidence(prop string, opt *Options, u *Universe, results []*FuncResult
 		}
 		if r.Unsupported != "" {
 			m["unsupported"] = r.Unsupported
+		}
+		if r.AsmModel {
+			m["assembly"] = "proved on the Go transliteration of the TEXT routine generated by govc/asm.go on this run"
 		}
 		fns = append(fns, m)
 	}
